@@ -316,13 +316,13 @@ func corpus(r *hx.Run) {
 	seqCase(r, "sm", []string{"rlock", "runlock", "runlock"})
 	seqCase(r, "sm", []string{"rlock", "unlock"})
 	seqCase(r, "dagc", []string{"rlock:1", "runlock:1,2", "lock:1"})       // former finding (fixed fdd3faa): entity 1 stays registered, Lock(1) blocks
-	seqCase(r, "dagc", []string{"rlock:1", "unlock:1", "lock:1"})          // former finding: the wrong-mode panic leaves the registration; entity 1 is frozen
+	seqCase(r, "dagc", []string{"rlock:1", "unlock:1", "lock:1"})          // former finding: the wrong-mode panic leaves registration and read lock; Lock(1) blocks
 	seqCase(r, "dagc", []string{"lock:1", "runlock:1", "rlock:1"})         // the same for RUnlock of a write-locked entity
 	seqCase(r, "dagc", []string{"rlock:1", "runlock:2", "lock:1"})         // nothing unregistered: Lock(1) stays blocked
 	seqCase(r, "dagc", []string{"rlock:1,1", "runlock:1,1,1", "lock:1"})   // duplicates: validated with multiplicity, nothing unregistered
 	seqCase(r, "dagc", []string{"unlock:1", "lock:1"})                     // Unlock's lookup panic releases d.Mutex first: Lock(1) is granted
-	// wrong mode at the 2nd id: entity 1 released, entity 3 (write-locked) frozen by the panic, entity 2 still read-locked,
-	// all registrations in place; afterwards Lock(1) and RLock(2) are granted, Unlock(3) blocks on the frozen mutex
+	// wrong mode at the 2nd id: entity 1 released, entity 3 (write-locked) untouched, entity 2 still read-locked, all
+	// registrations in place; afterwards Lock(1), RLock(2) and the holder's Unlock(3) go through
 	seqCase(r, "dagc", []string{"rlock:1,2", "lock:3", "runlock:1,3,2", "lock:1", "rlock:2", "unlock:3"})
 	seqCase(r, "dagc", []string{"rlock:1,2", "lock:3", "runlock:1,3,2", "lock:2"}) // … and Lock(2) blocks behind the read lock
 	gapCorpus(r)
